@@ -38,3 +38,52 @@ Definition semver_placement (z : zerv) : semver :=
 (* a component whose variable is unset: it resolves to nothing under every sanitiser *)
 Definition unset (c : component) (vs : vars) : Prop :=
   (forall z, comp_value c vs z = None) /\ (forall z, comp_expanded c vs z = []).
+
+(* ---------------- PEP 440 ---------------- *)
+(* The placement rule of property C06 for PEP 440 output, stated without the processing loops, for schemas in which each of epoch /
+   pre-release / post / dev occurs at most once in extra-core (the schema validation guarantees it):
+   - every core component whose value is an integer below 2^32 is a release number, in schema order ([0] if there is none);
+   - in extra-core, the epoch / pre-release / post / dev variables set their field when they have a (u32) value;
+   - every other component contributes its dot-separated local segments, in schema order: core first, then extra-core, then build;
+   - then normal form. *)
+Definition olist_l {A} (o : option (list A)) : list A := match o with Some l => l | None => [] end.
+
+Definition pep_release_of (vs : vars) (core : list component) : list N :=
+  match flat_map (fun c => match u32_value c vs with Some n => [n] | None => [] end) core with [] => [0] | r => r end.
+
+Definition pep_core_local (vs : vars) (core : list component) : list lseg :=
+  flat_map (fun c => match u32_value c vs with Some _ => [] | None => olist_l (local_value c vs) end) core.
+
+Definition is_sec_comp (c : component) : bool := match c with CVar v => is_secondary v | _ => false end.
+
+Definition pep_extra_local (vs : vars) (extra : list component) : list lseg :=
+  flat_map (fun c => if is_sec_comp c then [] else olist_l (local_value c vs)) extra.
+
+Definition pep_build_local (vs : vars) (build : list component) : list lseg := flat_map (fun c => olist_l (local_value c vs)) build.
+
+Definition owns (v : var) (c : component) : bool := match c with CVar w => var_eqb v w | _ => false end.
+Definition has_var (v : var) (l : list component) : bool := existsb (owns v) l.
+
+(* what the pre-release variable sets (from the state "nothing set") *)
+Definition pre_of_vars (vs : vars) : option label * option N :=
+  match var_expanded PreRelease vs pep440_local_str with
+  | e0 :: rest =>
+    if nonempty e0 then
+      (label_of_str e0, match rest with e1 :: _ => if nonempty e1 then parse_u32 e1 else None | [] => None end)
+    else (None, None)
+  | [] => (None, None)
+  end.
+
+Definition pep_placement (z : zerv) : pep :=
+  let vs := z_vars z in
+  let sc := z_schema z in
+  let ex := s_extra sc in
+  let ep := if has_var Epoch ex then match u32_value (CVar Epoch) vs with Some n => n | None => 0 end else 0 in
+  let pre := if has_var PreRelease ex then pre_of_vars vs else (None, None) in
+  let po := if has_var Post ex then u32_value (CVar Post) vs else None in
+  let dv := if has_var Dev ex then u32_value (CVar Dev) vs else None in
+  pep_normalize
+    {| p_epoch := ep; p_release := pep_release_of vs (s_core sc);
+       p_pre_label := fst pre; p_pre_num := snd pre;
+       p_post_label := is_some po; p_post_num := po; p_dev_label := is_some dv; p_dev_num := dv;
+       p_local := some_if_nonempty (pep_core_local vs (s_core sc) ++ pep_extra_local vs ex ++ pep_build_local vs (s_build sc)) |}.
